@@ -328,7 +328,9 @@ static int vr_compare (VArena * X, VArena * R, const VRunCfg * c, OrcExecutor * 
         return 3;
       }
       /* the two accessors a caller reads an accumulator with must deliver that value */
-      if (ex_x->program && ex_x->program->vars[ORC_VAR_A1 + k].name) {
+      /* (only when the name identifies this accumulator: programs rebuilt from bytecode call every accumulator "a") */
+      if (ex_x->program && ex_x->program->vars[ORC_VAR_A1 + k].name &&
+          orc_program_find_var_by_name (ex_x->program, ex_x->program->vars[ORC_VAR_A1 + k].name) == ORC_VAR_A1 + k) {
         int by_index = orc_executor_get_accumulator (ex_x, ORC_VAR_A1 + k);
         int by_name = orc_executor_get_accumulator_str (ex_x, ex_x->program->vars[ORC_VAR_A1 + k].name);
         if (by_index != ex_x->accumulators[k] || by_name != ex_x->accumulators[k]) {
